@@ -233,7 +233,10 @@ Fixpoint judge_ops (sc : schema) (maxsize maxlimit : N) (i : N) (closed : option
           continue (match o with
                     | QError _ => 108
                     | QRows rows =>
-                        if list_eqb (fun x y => bytes_eqb (r_id x) (r_id y) && (r_hybrid x =? r_hybrid y)) rows srows
+                        (* which of several points at the same distance comes first, or makes the cut of the ranking
+                           sub-query, is not determined (these are two separate searches): the hybrid values agree
+                           position by position, no point comes twice *)
+                        if list_eqb (fun x y => r_hybrid x =? r_hybrid y) rows srows && nodup_ids (map r_id rows)
                         then 0 else 109
                     end) closed shs ref
       end
